@@ -166,6 +166,11 @@ func c02Strata() []*gast.Grammar {
 		// sequence; the inner action is reached a second time at the same offset from another start
 		mk(r("S", gast.C(gast.A(gast.S(gast.Lab("a", gast.Ref("A")), gast.L("z")), 1, mon.Spec{}), gast.A(gast.S(gast.L("x"), gast.Lab("a", gast.Ref("A"))), 2, mon.Spec{}), gast.Star(gast.Dot()))),
 			r("A", gast.A(gast.S(gast.Star(gast.L("x")), gast.A(gast.Lab("b", gast.L("y")), 3, mon.Spec{}), gast.AndC(5, mon.Spec{})), 4, mon.Spec{R: 3}))),
+		// blocks nested in a syntactic predicate that read labels bound to e+, e* and a parenthesised
+		// sequence (the values are needed although the predicate throws its own value away)
+		mk(r("S", gast.Star(gast.C(gast.S(gast.AndE(gast.A(gast.S(gast.Lab("a", gast.Plus(gast.Cl(gast.Chars("ab")))), gast.Lab("b", gast.S(gast.L("x"), gast.Opt(gast.L("y")))), gast.AndC(4, mon.Spec{})), 1, mon.Spec{})), gast.Dot()),
+			gast.S(gast.NotE(gast.S(gast.A(gast.Lab("a", gast.Star(gast.L("x"))), 2, mon.Spec{}), gast.L("!"))), gast.Dot()))))),
+		// predicates whose block returns an error next to its boolean: the boolean alone decides
 		mk(r("S", gast.Star(gast.C(gast.A(gast.S(gast.AndC(4, mon.Spec{E: 1}), gast.L("a")), 1, mon.Spec{}), gast.A(gast.S(gast.NotC(5, mon.Spec{E: 1}), gast.L("b")), 2, mon.Spec{}),
 			gast.A(gast.S(gast.NotC(6, mon.Spec{E: 1, B: 1}), gast.AndC(7, mon.Spec{E: 3, B: 1}), gast.L("c")), 8, mon.Spec{}), gast.A(gast.Dot(), 3, mon.Spec{}))))),
 		// a label of the enclosing sequence is used again inside the last (and inside a middle)
